@@ -155,7 +155,7 @@ class CellOp(Op):
                 v = float(z)
                 coq = f"(CFloatIntegral ({z})%Z)"
             elif r < 0.6:
-                v = rng.choice([1.5, 0.1, -2.25, 3.14159, 1e-7, 2.5e20, 1 / 3, 1e16, 123456789.125])
+                v = rng.choice([1.5, 0.1, -2.25, 3.14159, 1e-7, 2.5e20, 1 / 3, 1e16, 123456789.125, 0.00001, -3.2e-9, 1.5e-300, 5e-324, 0.0001, 2.5e-5, -1e-5, 9.999e-5])
                 coq = f"(CFloatIntegral ({int(v)})%Z)" if v.is_integer() else f"(CFloatOther {cstr(str(v))})"
             elif r < 0.65:
                 v = rng.choice([datetime.datetime(2020, 1, 2, 3, 4, 5), datetime.time(1, 2, 3), datetime.datetime(1999, 12, 31)])
@@ -209,7 +209,7 @@ class MdOp(Op):
         return cases
 
 
-CSV_CELLS = ["type", "name", "label", "text", "q1", "A b", "", " ", "x", " pad ", "1", "survey", "é", "a=b", "\u00a0", "\tt"]
+CSV_CELLS = ["type", "name", "label", "text", "q1", "A b", "", " ", "x", " pad ", "1", "survey", "é", "a=b", "\u00a0", "\tt", "A  b", "a   b", "", "name"]
 CSV_SHEETS = ["survey", "choices", "settings", "Survey", "notes", "entities", "external_choices", "osm", "x y", "", " survey", "survey ", "sheet_names", "survey_header", "SURVEY"]
 
 
@@ -225,7 +225,7 @@ class CsvBookOp(Op):
         import csv
         from io import StringIO
         from pyxform.xls2json_backends import csv_to_dict
-        from pyxform.errors import PyXFormError
+        from pyxform.errors import PyXFormError, PyXFormReadError
 
         def line():
             k = rng.random()
@@ -254,11 +254,17 @@ class CsvBookOp(Op):
             text = "\n".join(line() for _ in range(rng.randint(1, 8))) + "\n"
             try:
                 d = csv_to_dict(text)
-            except PyXFormError:
+                expected, cls, nontrivial = show(d), f"{min(len(d['sheet_names']), 3)} sheets", any(isinstance(v, list) and v and k != "sheet_names" for k, v in d.items())
+            except PyXFormReadError:
                 continue
+            except PyXFormError as e:
+                # an error of the content (not of reading): a repeated column header
+                if not str(e).startswith("Duplicate column header: "):
+                    raise
+                expected, cls, nontrivial = "E" + str(e)[len("Duplicate column header: "):], "duplicate header", True
             rows = list(csv.reader(StringIO(text, newline="")))
-            cases.append({"coq": clist([clist([cstr(c) for c in r], "(list N)") for r in rows], "(list (list N))"), "expected": show(d), "desc": {"csv": text},
-                          "class": f"{min(len(d['sheet_names']), 3)} sheets", "nontrivial": any(isinstance(v, list) and v and k != "sheet_names" for k, v in d.items())})
+            cases.append({"coq": clist([clist([cstr(c) for c in r], "(list N)") for r in rows], "(list (list N))"), "expected": expected, "desc": {"csv": text},
+                          "class": cls, "nontrivial": nontrivial})
         return cases
 
 
@@ -542,30 +548,188 @@ def _check(args):
     return {"i": i, "ok": True, "typed": typed_cells, "pad": pad, "key": hash(md)}
 
 
+# ---- second stream: layouts of the grid itself (header rows, sheet names, typed decimals), the same grid in every container -------------
+def grid_md(gr):
+    lines = []
+    for sheet, grid in gr.items():
+        lines.append(f"| {sheet} |")
+        for row in grid:
+            lines.append("| | " + " | ".join("" if v is None else str(v) for v in row) + " |")
+    return "\n".join(lines) + "\n"
+
+
+def grid_csv(gr):
+    import csv
+    sio = io.StringIO(newline="")
+    w = csv.writer(sio, quoting=csv.QUOTE_ALL, lineterminator="\n")
+    for sheet, grid in gr.items():
+        w.writerow([sheet])
+        for row in grid:
+            w.writerow(["", *["" if v is None else str(v) for v in row]])
+    return sio.getvalue()
+
+
+def grid_xlsx(gr, decimals):
+    from openpyxl import Workbook
+    wb = Workbook()
+    wb.remove(wb.active)
+    for sheet, grid in gr.items():
+        ws = wb.create_sheet(title=sheet)
+        for row in grid:
+            ws.append([(float(v) if (decimals and isinstance(v, str) and v in DECIMAL_TEXTS) else v) for v in row])
+    bio = io.BytesIO()
+    wb.save(bio)
+    return bio.getvalue()
+
+
+DECIMAL_TEXTS = ["0.00001", "0.0000001", "-0.0000000032", "0.000025", "2.5", "0.1", "123456789.125", "0.0001"]
+F_MD_HEADERLESS = "F76-md-value-under-empty-header"
+
+
+def _check_layout(args):
+    seed, i = args
+    rng = rng_for(seed, PID, "layout", i)
+    from pyxform.xls2xform import convert
+    from pyxform.errors import PyXFormError
+    dec = rng.choice(DECIMAL_TEXTS)
+    survey = [["type", "name", "label", "default"], ["decimal", "d1", "Amount", dec], ["select_one yn", "q1", "Agree?", None], ["text", "t1", "Why", None]]
+    choices = [["list_name", "name", "label"], ["yn", "yes", "Yes"], ["yn", "no", "No"]]
+    gr = {"survey": survey, "choices": choices}
+    kinds = []
+    if rng.random() < 0.4:      # an external select: its sheet is written to itemsets.csv, header row first
+        survey[0].append("choice_filter")
+        for r in survey[1:]:
+            r.append(None)
+        survey.append(["select_one_external towns", "town", "Town", None, "state=${t1}"])
+        gr["external_choices"] = [["list_name", "name", "state"], ["towns", "x", "s1"], ["towns", "y", "s2"]]
+        kinds.append("external")
+    k = rng.random()
+    expect_dup = None
+    finding = False
+    if k < 0.25:                # empty header cells to the right of the last header (cells under them empty too)
+        for sh in rng.sample(sorted(gr), rng.randint(1, len(gr))):
+            n = rng.choice([1, 2, 3, 20])
+            for r in gr[sh]:
+                r.extend([None] * n)
+        kinds.append("trailing-empty-headers")
+    elif k < 0.4:               # a run of spaces inside a header: one space, for every reader
+        survey[0][2] = "label::English  (en)"
+        kinds.append("header-space-run")
+    elif k < 0.55:              # the same header twice: refused by every reader, with the same message
+        sh = rng.choice(["survey", "choices"])
+        h = gr[sh][0][rng.randrange(len(gr[sh][0]))]
+        gr[sh][0].append(h)
+        for r in gr[sh][1:]:
+            r.append("x")
+        expect_dup = h
+        kinds.append("duplicate-header")
+    elif k < 0.7:               # the only sheet of the workbook under another name
+        gr = {rng.choice(["Sheet1", "Form", "survey 1"]): [["type", "name", "label", "default"], ["decimal", "d1", "Amount", dec], ["text", "t1", "Why", None]]}
+        kinds = ["only-sheet"]
+    elif k < 0.85:              # spaces around a sheet name (md trims its cells anyway)
+        gr = {(rng.choice([" ", ""]) + sh + rng.choice([" ", "  "])): g for sh, g in gr.items()}
+        kinds.append("sheet-name-spaces")
+    elif k < 0.93:              # an empty header cell INSIDE the header row, nothing under it
+        pos = rng.randint(1, len(survey[0]) - 1)
+        for r in survey:
+            r.insert(pos, None)
+        kinds.append("interior-empty-header")
+    else:                       # ... with a value under it: ignored by csv and the spreadsheets; md refuses it (finding, pinned by a test of the suite)
+        pos = rng.randint(1, len(survey[0]) - 1)
+        for ri, r in enumerate(survey):
+            r.insert(pos, None if ri != 1 else "stray")
+        kinds.append("value-under-empty-header")
+        finding = True
+    md, csvs = grid_md(gr), grid_csv(gr)
+    xb, xb_typed = grid_xlsx(gr, False), grid_xlsx(gr, True)
+    variants = [("md", lambda: convert(md, file_type=".md")), ("csv", lambda: convert(csvs, file_type=".csv")), ("xlsx", lambda: convert(xb)),
+                ("xlsx/typed-decimals", lambda: convert(xb_typed)), ("md/untyped", lambda: convert(md)), ("csv/bytes", lambda: convert(csvs.encode("utf-8"), file_type=".csv"))]
+    outs = {}
+    for name, fn in variants:
+        try:
+            r = fn()
+            outs[name] = ("ok", r.xform, tuple(r.warnings), r.itemsets)
+        except PyXFormError as e:
+            outs[name] = ("pyxerr", str(e))
+        except Exception as e:   # noqa: BLE001
+            return {"i": i, "form": {"grid": gr}, "variant": name, "what": f"layout {kinds}: {name} crashed with {e!r}"}
+    desc = {"grid": gr, "layout": kinds}
+    if expect_dup is not None:
+        bad = [n for n, o in outs.items() if not (o[0] == "pyxerr" and "Duplicate column header" in o[1])]
+        if bad:
+            return {"i": i, "form": desc, "variant": bad[0], "what": f"the header {expect_dup!r} twice on one sheet: {bad[0]} gives {outs[bad[0]][:2]!r:.200} instead of refusing the duplicate"}
+        return {"i": i, "ok": True, "typed": True, "pad": True, "key": ("layout", tuple(kinds), i), "layout": kinds}
+    ref = outs["xlsx"]
+    if ref[0] != "ok":
+        return {"i": i, "form": desc, "variant": "xlsx", "what": f"layout {kinds}: the spreadsheet is rejected: {ref[1][:200]}"}
+    if f"<d1>{dec}</d1>" not in ref[1]:
+        return {"i": i, "form": desc, "variant": "xlsx", "what": f"the default {dec} of d1 is not in the instance"}
+    if "external" in kinds and ref[3] != '"list_name","name","state"\r\n"towns","x","s1"\r\n"towns","y","s2"\r\n':
+        return {"i": i, "form": desc, "variant": "xlsx", "what": f"itemsets {ref[3]!r} are not the external choices as written"}
+    for name, o in outs.items():
+        if o != ref:
+            if finding and name.startswith("md") and o[0] == "pyxerr" and "missing mapping for 'None'" in o[1]:
+                continue
+            which = "outcome" if o[0] != ref[0] else ("xform" if o[1] != ref[1] else ("warnings" if o[2] != ref[2] else "itemsets"))
+            return {"i": i, "form": desc, "variant": name, "what": f"layout {kinds}: {name} differs from xlsx in its {which}: {str(o[1:])[:300]}",
+                    "observed": {"got": str(o)[:1500], "want": str(ref)[:1500]}}
+    if finding and any(outs[n][0] == "pyxerr" for n in ("md", "md/untyped")):
+        return {"i": i, "form": desc, "variant": "md", "finding": F_MD_HEADERLESS,
+                "what": "a value under an empty header cell inside the header row: the Markdown reader refuses the workbook, csv and the spreadsheets ignore the cell"}
+    return {"i": i, "ok": True, "typed": True, "pad": True, "key": ("layout", tuple(kinds), i), "layout": kinds}
+
+
 def oracle(seed, tier, searching=False):
     n = 300 if tier == "quick" else 4000
     if searching:
         n *= 3
     res = pmap(_check, [(seed, i) for i in range(n)], chunksize=4)
+    lay = pmap(_check_layout, [(seed, i) for i in range(n // 2)], chunksize=8)
+    layouts = {}
+    for r in lay:
+        for k in r.get("layout", []):
+            layouts[k] = layouts.get(k, 0) + 1
+    res = res + lay
     fails = [r for r in res if "what" in r]
     oks = [r for r in res if r.get("ok")]
     return {
-        "evaluations": len(res),
+        "evaluations": len(res), "layout_stream": layouts,
+        "layout_rule": "a small workbook written as a raw grid (header row included) and rendered from that one grid as md, csv and xlsx: empty header cells right of and "
+                       "inside the header row, a run of spaces in a header, a repeated header (refused by all with the same message), the only sheet under another name, "
+                       "spaces around sheet names, a decimal default typed as a number in the spreadsheet (0.00001, not 1e-05); XForm, warnings and itemsets equal across all",
         "distinct_nontrivial": len({r["key"] for r in oks if r["typed"] or r["pad"]}),
         "rule": "one generated workbook rendered as dict, md, csv, xlsx/xlsm (typed cells, interior empty columns <= 20, trailing empty rows/"
                 "columns) and injected xlrd sheets; delivered as path, bytes, BytesIO, open file, str with/without file_type; XForm, warnings "
                 "and itemsets must equal the dict input's; non-trivial = typed cells or padding present, distinct by workbook",
         "accepted": len(oks), "skipped": sum(1 for r in res if "skip" in r),
-        "failures": [{"input": {"form": f["form"], "case": f["i"], "variant": f["variant"]}, "what": f["what"], "observed": f.get("observed"),
+        "failures": [{"input": {"form": f["form"], "case": f["i"], "variant": f["variant"]}, "what": f["what"], "observed": f.get("observed"), "finding": f.get("finding"),
                       "reproduce": "cd /verif && /venv/bin/python harness/check.py C12 --replay <this file>"} for f in fails],
         "samples": [{"oracle_case": r["i"], "typed_cells": r["typed"], "padding": r["pad"]} for r in oks[:3]],
     }
 
 
-FINDING_INPUTS = {}
+FINDING_INPUTS = {
+    F_MD_HEADERLESS: "| survey |\n| | type | | name | label |\n| | text | stray | q1 | Q |\n",
+}
 
 
 def replay_finding(slug):
+    md = FINDING_INPUTS.get(slug)
+    if not md:
+        return None
+    from pyxform.xls2xform import convert
+    from pyxform.errors import PyXFormError
+    csvs = "survey\n,type,,name,label\n,text,stray,q1,Q\n"
+    try:
+        ok_csv = bool(convert(csvs, file_type=".csv").xform)
+    except PyXFormError:
+        ok_csv = False
+    try:
+        convert(md, file_type=".md")
+    except PyXFormError as e:
+        if ok_csv and "missing mapping for 'None'" in str(e):
+            return {"input": {"md": md, "csv": csvs}, "finding": slug,
+                    "what": "a value under an empty header cell inside the header row: the Markdown reader refuses the workbook, the csv reader ignores the cell"}
     return None
 
 
